@@ -201,6 +201,37 @@ def run(ctx):
     ctx.instance(R1, f"{HEADER}[value of a present required field is validated]", ok_h,
                  "the header validator no longer passes the value of a required header field through validate_value (or only where the member is not a plain "
                  "field): a header value outside its type / enumeration is accepted", loc(repo.func(HEADER)))
+    # every tag of the message is examined: the scan over the message's tags is left only by a rejection or at its end - a `break` / `return`
+    # inside it (e.g. at the first header tag or at the CheckSum) lets everything behind that tag through unvalidated
+    vf = repo.func(VALIDATE)
+    scans = [n for n in walk_no_nested(vf) if isinstance(n, ast.For) and re.search(r"\b(msg|message)\b.*\b(tags|items)\b", unparse(n.iter))]
+    if len(scans) != 1:
+        raise AnalysisError(f"{VALIDATE}: expected one scan over the message's tags, found {len(scans)}")
+
+    def own_exits(loop):
+        out = []
+        def rec(stmts, inner):
+            for st in stmts:
+                if isinstance(st, ast.Break) and not inner:
+                    out.append(st)
+                elif isinstance(st, ast.Return):
+                    out.append(st)
+                elif isinstance(st, (ast.For, ast.While, ast.AsyncFor)):
+                    rec(st.body, True)
+                    rec(st.orelse, inner)
+                elif isinstance(st, (ast.FunctionDef, ast.AsyncFunctionDef, ast.ClassDef)):
+                    continue
+                else:
+                    for fld in ("body", "orelse", "finalbody"):
+                        rec(getattr(st, fld, []) or [], inner)
+                    for h in getattr(st, "handlers", []) or []:
+                        rec(h.body, inner)
+        rec(loop.body, False)
+        return out
+    ex_ = own_exits(scans[0])
+    ctx.instance(R1, f"{VALIDATE}[every tag of the message is examined]", not ex_,
+                 "the scan over the message's tags can be left by `break` / `return` before its end: the tags behind that point are accepted unexamined "
+                 "(a decoded message starts with its header tags)", loc(ex_[0]) if ex_ else loc(scans[0]))
     # ------------------------------------------------------------------ rule 2
     gv, gg = graphs[VALIDATE], graphs[GROUP]
     rv, rg = raises_of(gv), raises_of(gg)
